@@ -123,7 +123,7 @@ def gen(S, tier):
         "stream_encoding": c.weighted([(None, 7), ("utf-8", 1), ("ascii", 1), ("latin-1", 1), ("cp1252", 0.5), ("no-such-codec", 0.3)]),
         "origin": f.weighted([("harness", 5), ("simfile", 2), ("simfile_fault", 2), ("exec", 2)]),
         # how the handler is attached: an object with handle(), or a callable wrapped in CallbackHandler
-        "handler_kind": c.pick(["object", "object", "callback", "callback_var"]),
+        "handler_kind": c.pick(["object", "object", "callback", "callback_var", "factory"]),
         # failing runs of the same process *before* the run under test (another application object,
         # another message): what their error reports leave behind must not matter
         "prior": prior,
